@@ -53,6 +53,22 @@ CLAIMED = {
             "== input shape, the spectrum handed to the inverse transform is weight x spectrum(input), and the Backend / "
             "pipeline entry points delegate with unchanged arguments.",
             NOTE + "FFT linearity, irfftn(rfftn(x), s=x.shape)==x and the half/full spectrum correspondence are assumed lemmas."),
+    "C18": ("DESIGN.md section 2 / C18",
+            "Deductive for the part a contract can decide: exactness needs the decomposition to come from da.linalg.svd; "
+            "DaskPCA._get_solver (configuration used by PcaClassifier: svd_solver='auto') is proved to return 'full' for "
+            "every data shape and n_components outside the recorded known finding (randomized solver for "
+            "max(n_samples,n_features) > 500 and n_components < 0.8*min).",
+            NOTE + "Equality of da.linalg.svd with an exact SVD, k-means separation and the label write-back loop are "
+            "not under contract (numerical / not yet built)."),
+    "C19": ("DESIGN.md section 2 / C19",
+            "Deductive over opaque images (providers and converters as uninterpreted functions): every binary, reflected "
+            "and comparison operator of ImageProvider / ImageConverter acts voxel-wise with the right operand order, "
+            "compose/@ is nested application, with_scale and the currying decorators supply scale/image later; nm "
+            "parameters reach scipy.ndimage only as quotients by the scale (dilation/closing/gaussian_filter/shift/"
+            "gaussian_smooth, lemma (lam r)/(lam s) == r/s); structuring element contains its centre; gaussian_smooth "
+            "values in [0,1]; from_gaussian is a Gaussian centred in the box plus shift.",
+            NOTE + "Extensivity of morphology with a centred structure, rescaling providers (zoom) and Otsu thresholding "
+            "are trusted / not under contract."),
 }
 NOT_YET = "check not built yet in this session (work in progress; see DESIGN.md section 7 for the order)"
 
